@@ -26,7 +26,7 @@ fn tp_read_case<const N: usize>() {
     }
 }
 
-// @harness transport_parameters_read_total_10 props=C03 tier=thorough kind=bounded bound="byte strings of at most 10 bytes (one parameter with an 8-byte value, or up to five short ones)" timeout=1500 fn="TransportParameters::read" desc="for every byte string of 0..=10 bytes and either side: decoding the peer's transport parameters never panics (no overflow in the validation arithmetic, no read past the end); accepted parameters satisfy the range checks of RFC 9000 section 18.2"
+// @harness transport_parameters_read_total_10 props=C03 tier=thorough kind=attempt bound="byte strings of at most 10 bytes (one parameter with an 8-byte value, or up to five short ones)" timeout=1500 fn="TransportParameters::read" desc="for every byte string of 0..=10 bytes and either side: decoding the peer's transport parameters never panics (no overflow in the validation arithmetic, no read past the end); accepted parameters satisfy the range checks of RFC 9000 section 18.2"
 #[cfg_attr(kani, kani::proof)]
 #[cfg_attr(kani, kani::unwind(12))]
 #[cfg_attr(verif_replay, test)]
